@@ -357,6 +357,23 @@ def threshold_job(seed, tier):
                         got = ShareSet.recover_mnemonic(shares[:k], pw + b"x")
                         if got == mn:
                             failures.append(_fail("wrong passphrase recovered the secret", info, ["decrypt with another passphrase differs"]))
+                    # history: ONE ShareSet object asked twice with different passphrases (a result memoised on the object
+                    # without the passphrase would answer the second call with the first call's secret); both orders,
+                    # each answer judged by the independent decoder
+                    if (n + k) % 3 == 0 and m_avail >= k:
+                        from buidl.shamir import Share as _Share
+                        for first, second in ((pw + b"x", pw), (pw, pw + b"typo")):
+                            evals += 1
+                            try:
+                                obj = ShareSet([_Share.parse(m) for m in shares[:k]])
+                                got = [obj.recover(first), obj.recover(second)]
+                            except Exception as ex:      # noqa
+                                got = "raised " + repr(ex)
+                            want = [S.combine([_idx(m) for m in shares[:k]], first), S.combine([_idx(m) for m in shares[:k]], second)]
+                            if got != want:
+                                failures.append(_fail("one ShareSet object, recover(passphrase A) then recover(passphrase B): the answers are not "
+                                                      "the two decryptions", dict(info, first=first, second=second, got=repr(got), want=repr(want)),
+                                                      ["ShareSet.recover(p) == spec.combine(shares, p) on every call of one object"]))
                     if len(samples) < 3 and k == 2:
                         samples.append({"k": k, "n": n, "bits": bits, "share0": shares[0], "recovered": True})
                 # spec-made shares -> real recover
